@@ -50,6 +50,7 @@ type evNode struct {
 	logs     *MapLogStore
 	stable   *MapStable
 	snaps    *SnapStore
+	fsm      *RecFSM
 	inst     int
 	wasLdr   bool
 	lastSeen uint64
@@ -167,7 +168,8 @@ func (c *evCluster) startNode(n *evNode) {
 	n.inst++
 	n.trans = &evTrans{c: c, id: n.id, inst: n.inst, consumer: make(chan raft.RPC, 16)}
 	cf := baseConfig(nodeOpts{id: n.id, trailing: 100, maxAppend: 4, prevoteOff: true})
-	r, err := raft.NewRaft(cf, &RecFSM{}, n.logs, n.stable, n.snaps, n.trans)
+	n.fsm = &RecFSM{}
+	r, err := raft.NewRaft(cf, n.fsm, n.logs, n.stable, n.snaps, n.trans)
 	if err != nil {
 		panic(err)
 	}
